@@ -1003,5 +1003,72 @@ def r17_17(ctx):
     return r
 
 
+def r17_18(ctx):
+    """'a lower layer (SCTP) ... is closed by the peer ... the connection reports a terminal state': Closed is terminal for the
+    association. handle_cookie_ack / handle_cookie_echo set the state to Connected with mem::replace whatever it was - an
+    ABORT followed by a COOKIE ACK (same packet or the next one) re-established the association, the runner never exited and
+    no channel saw Close. Decided: every site in the SCTP handlers that stores Connected into the state is on the
+    `state != Closed` edge."""
+    r = RuleResult("R17.18", "K1", "a closed SCTP association is never set to Connected again")
+    n = 0
+    for fn in ("handle_cookie_ack", "handle_cookie_echo"):
+        b = ctx.body("transports::sctp::SctpInner::%s::{closure#0}" % fn)
+        r.scope.append(b.name)
+        sites = []
+        for bi, t, p in b.calls():
+            if p and p.endswith(("mem::replace", "SctpInner::set_state")) and mir.has(b.term_call(t), lambda x: x[0] == "agg" and x[2] == "Connected"):
+                sites.append(bi)
+        for bi, si, st, v in core.lock_write_sites(b, "state", methods=("::lock",)):
+            if mir.has(v, lambda x: x[0] == "agg" and x[2] == "Connected"):
+                sites.append(bi)
+
+        def not_closed(term, meaning, *_):
+            if term[0] == "call" and "PartialEq" in term[1] and isinstance(meaning, bool) and \
+                    mir.has(term, lambda x: x[0] == "call" and x[1].endswith("::lock") and x[2] and mir.has_field(x[2][0], "state")) and \
+                    mir.has(term, lambda x: x[0] == "agg" and x[2] == "Closed"):
+                return meaning is term[1].endswith("::ne")
+            return False
+        g = core.guard_edges(b, not_closed)
+        for bi in sorted(set(sites)):
+            n += 1
+            if g and core.k1(b, [bi], g)[bi] is None:
+                r.ok({"site": b.where(bi), "function": fn, "cut_by": "state != Closed"})
+            else:
+                r.violate(b.name, "revive:Connected", b.where(bi),
+                          "%s sets the association Connected whatever its state: after an ABORT (state Closed) a COOKIE ACK / COOKIE ECHO "
+                          "establishes it again - the runner does not exit and no channel is closed" % fn)
+    r.need("stores of Connected in the cookie handlers", n, 2)
+    return r
+
+
+def r17_19(ctx):
+    """'every open data channel observes Close exactly once, and pending ... API calls return promptly': a consumer loops on
+    `dc.recv()` until it returns None, which happens when the event sender is dropped (close_channel). Both sweeps that end
+    channels (close(), the cleanup guard) skip a channel whose state is already Closed, so whoever announces Close also has
+    to end the stream. Decided: in the SCTP / peer-connection code every send of DataChannelEvent::Close is followed on
+    every path by close_channel()."""
+    r = RuleResult("R17.19", "K4", "whoever announces Close on a data channel also ends its event stream")
+    n = 0
+    for b in ctx.facts.all_bodies():
+        if "::tests::" in b.name or not ("transports::sctp::" in b.name or "peer_connection::" in b.name):
+            continue
+        sends = [bi for bi, t, p in b.calls() if p and p.endswith("DataChannel::send_event") and len(t["a"]) > 1 and
+                 mir.has(b.term_operand(t["a"][1]), lambda x: x[0] == "agg" and x[2] == "Close")]
+        if not sends:
+            continue
+        r.scope.append(b.name)
+        ends = [bi for bi, t, p in b.calls() if p and p.endswith("DataChannel::close_channel")]
+        for bi in sends:
+            n += 1
+            if ends and core.always_followed_by(b, bi, ends, cut_edges=b.back_edges()):
+                r.ok({"site": b.where(bi), "then": "close_channel()"})
+            else:
+                r.violate(b.name, "close:stream-left-open", b.where(bi),
+                          "Close is announced here but the channel's event sender is not dropped: a `while let Some(ev) = dc.recv().await` consumer "
+                          "stays parked, and the later sweeps skip a channel that is Closed already")
+    r.need("sites announcing Close", n, 3)
+    return r
+
+
 def run(ctx):
-    return [r17_1(ctx), r17_2(ctx), r17_3(ctx), r17_4(ctx), r17_5(ctx), r17_6(ctx), r17_7(ctx), r17_8(ctx), r17_9(ctx), r17_10(ctx), r17_11(ctx), r17_12(ctx), r17_13(ctx), r17_14(ctx), r17_15(ctx), r17_16(ctx), r17_17(ctx)]
+    return [r17_1(ctx), r17_2(ctx), r17_3(ctx), r17_4(ctx), r17_5(ctx), r17_6(ctx), r17_7(ctx), r17_8(ctx), r17_9(ctx), r17_10(ctx), r17_11(ctx), r17_12(ctx), r17_13(ctx), r17_14(ctx), r17_15(ctx), r17_16(ctx), r17_17(ctx), r17_18(ctx), r17_19(ctx)]
